@@ -3,6 +3,7 @@ from __future__ import annotations
 from dataclasses import dataclass, field
 from enum import Enum
 from typing import Optional
+import math
 import statistics
 
 from .types import MHCPeptide
@@ -165,6 +166,12 @@ class Thymus:
             [s.confidence_mean for s in samples],
             [s.confidence_std for s in samples],
         )
+
+        # NaN statistics cannot define a baseline: every comparison against
+        # such bounds fails, so the profile would flag its own training data
+        if any(math.isnan(b) for b in
+               output_length_bounds + response_time_bounds + confidence_bounds):
+            return None, SelectionResult.NEGATIVE
 
         # Error rate: use max observed plus margin
         error_rates = [s.error_rate for s in samples]
